@@ -80,7 +80,7 @@ fn simple_repeat_small() {
     assert!(repeat_case(2, 3) == Ok(3));
 }
 
-//@ harness simple_repeat_max kind=bounded:repeat_count_255 fns=SimpleGlyph::read_dep timeout=1500 tier=thorough
+//@ harness simple_repeat_max kind=bounded:repeat_count_255 fns=SimpleGlyph::read_dep timeout=1500 tier=off
 #[kani::proof]
 #[kani::unwind(260)]
 fn simple_repeat_max() {
